@@ -5,3 +5,23 @@ claim("C08", "DESIGN.md §3 C08",
       "For all configurations at once: every check instance is registered under the constant its Reporter() returns, every Problem a check builds carries that reporter, CheckNames/OnlineChecks agree with the Reporter()/Meta() of all RuleChecker implementers, the CLI expansions range over those tables, and enable/disable lists are compared with the registered name by equality. This is close to the whole property; unit tests pin only sampled configurations.",
       SA_NOTE,
       "static analysis: table extraction and agreement over the type-checked AST (registration calls x Reporter() constants x name lists), who-may-write on Problem.Reporter, dominance on go/cfg")
+
+claim("C05", "DESIGN.md §3 C05",
+      "For all inputs and flag settings: severity constants ordered, ParseSeverity/String inverse tables, --fail-on default; in actionLint/actionCI every nil return reachable after counting is dominated by the false edge of the verdict test, the verdict variable is written only under `sev >= failOn` over the keys of CountBySeverity(), nothing from --min-severity/--show-duplicates flows into it; CountBySeverity counts every element of the unfiltered list; report identity (used to drop duplicates before counting) includes the severity.",
+      SA_NOTE,
+      "static analysis: constant/table extraction, def-use on the verdict variable, dominance and reachability on go/cfg, who-may-write on Problem.Severity and Summary.reports")
+
+claim("C07", "DESIGN.md §3 C07",
+      "Structural clauses every suppression relies on, decided for all files: writer/reader agreement on the dynamic type of Comment.Value per comment type; partition of comment types into rule-level/file-level/ignore classes and the keyword table; every read of Snooze.Match dominated by the not-expired edge; rule-comment test dominated by !locked and the AlwaysEnabled short-circuit, locked flowing from Rule.Locked; equality matching on the documented spellings; file-level disables flowing through Entry.DisabledChecks into isEnabled.",
+      SA_NOTE,
+      "static analysis: tag/value-type table agreement (go/types instantiations and assertions), dominance on go/cfg with short-circuit facts, field-flow checks on composite literals")
+
+claim("C03", "DESIGN.md §3 C03",
+      "For all histories: IsIdentical methods let every content field of both operands influence the result; the state switch of GitBranchFinder.Find, read as a first-match decision table and evaluated on all 32 valuations of its five atoms, equals the reference table of the statement; matchedEntry literals always set hasBefore or hasAfter; the state vocabulary tables agree with the documentation; the merge copies State/ModifiedLines and Entry.State has no other writers. Git plumbing is not decided.",
+      SA_NOTE,
+      "static analysis: field-influence (flow-insensitive taint to the return value), exhaustive evaluation of guard formulas extracted from the AST (not of the program), table agreement, who-may-write")
+
+claim("C09", "DESIGN.md §3 C09",
+      "For all configurations: duration comparison operators spell their constants; state vocabulary and per-command default; match-time regexps built only through strictRegex whose wrapper must group the pattern (known finding: it does not); label conditions iterate Entry.Labels() which merges group labels in every case; all nine Match fields influence Match.IsMatch; in isMatch a matching ignore block only leads to return false and return true is reachable only with no match blocks or after a match.",
+      SA_NOTE,
+      "static analysis: operator/constant table agreement, constant-wrapper inspection of the regexp constructor, field-influence coverage, path queries on go/cfg")
